@@ -70,6 +70,12 @@ Properties/C11.vos Properties/C11.vok Properties/C11.required_vos: Properties/C1
 Proofs/DynamicProofs.vo Proofs/DynamicProofs.glob Proofs/DynamicProofs.v.beautified Proofs/DynamicProofs.required_vo: Proofs/DynamicProofs.v Compiler/Emit.vo Proofs/EmitProofs.vo Proofs/PassThroughProofs.vo
 Proofs/DynamicProofs.vio: Proofs/DynamicProofs.v Compiler/Emit.vio Proofs/EmitProofs.vio Proofs/PassThroughProofs.vio
 Proofs/DynamicProofs.vos Proofs/DynamicProofs.vok Proofs/DynamicProofs.required_vos: Proofs/DynamicProofs.v Compiler/Emit.vos Proofs/EmitProofs.vos Proofs/PassThroughProofs.vos
+Proofs/VarProofs.vo Proofs/VarProofs.glob Proofs/VarProofs.v.beautified Proofs/VarProofs.required_vo: Proofs/VarProofs.v Compiler/Emit.vo Proofs/EmitProofs.vo Proofs/EmitInv.vo
+Proofs/VarProofs.vio: Proofs/VarProofs.v Compiler/Emit.vio Proofs/EmitProofs.vio Proofs/EmitInv.vio
+Proofs/VarProofs.vos Proofs/VarProofs.vok Proofs/VarProofs.required_vos: Proofs/VarProofs.v Compiler/Emit.vos Proofs/EmitProofs.vos Proofs/EmitInv.vos
+Properties/C03.vo Properties/C03.glob Properties/C03.v.beautified Properties/C03.required_vo: Properties/C03.v Compiler/Compile.vo Proofs/EmitProofs.vo Proofs/EmitInv.vo Proofs/VarProofs.vo Proofs/PassThroughProofs.vo Proofs/DynamicProofs.vo
+Properties/C03.vio: Properties/C03.v Compiler/Compile.vio Proofs/EmitProofs.vio Proofs/EmitInv.vio Proofs/VarProofs.vio Proofs/PassThroughProofs.vio Proofs/DynamicProofs.vio
+Properties/C03.vos Properties/C03.vok Properties/C03.required_vos: Properties/C03.v Compiler/Compile.vos Proofs/EmitProofs.vos Proofs/EmitInv.vos Proofs/VarProofs.vos Proofs/PassThroughProofs.vos Proofs/DynamicProofs.vos
 Properties/C02.vo Properties/C02.glob Properties/C02.v.beautified Properties/C02.required_vo: Properties/C02.v Base/GoStr.vo Proofs/EscapeProofs.vo Compiler/Emit.vo Proofs/EmitProofs.vo Proofs/DynamicProofs.vo
 Properties/C02.vio: Properties/C02.v Base/GoStr.vio Proofs/EscapeProofs.vio Compiler/Emit.vio Proofs/EmitProofs.vio Proofs/DynamicProofs.vio
 Properties/C02.vos Properties/C02.vok Properties/C02.required_vos: Properties/C02.v Base/GoStr.vos Proofs/EscapeProofs.vos Compiler/Emit.vos Proofs/EmitProofs.vos Proofs/DynamicProofs.vos
@@ -112,9 +118,6 @@ Properties/C12.vos Properties/C12.vok Properties/C12.required_vos: Properties/C1
 Properties/C13.vo Properties/C13.glob Properties/C13.v.beautified Properties/C13.required_vo: Properties/C13.v Runtime/Pool.vo Proofs/RuntimeProofs.vo
 Properties/C13.vio: Properties/C13.v Runtime/Pool.vio Proofs/RuntimeProofs.vio
 Properties/C13.vos Properties/C13.vok Properties/C13.required_vos: Properties/C13.v Runtime/Pool.vos Proofs/RuntimeProofs.vos
-Properties/C03.vo Properties/C03.glob Properties/C03.v.beautified Properties/C03.required_vo: Properties/C03.v Compiler/Compile.vo
-Properties/C03.vio: Properties/C03.v Compiler/Compile.vio
-Properties/C03.vos Properties/C03.vok Properties/C03.required_vos: Properties/C03.v Compiler/Compile.vos
 Properties/C08.vo Properties/C08.glob Properties/C08.v.beautified Properties/C08.required_vo: Properties/C08.v Proxy/Proxy.vo Proofs/ProxyProofs.vo
 Properties/C08.vio: Properties/C08.v Proxy/Proxy.vio Proofs/ProxyProofs.vio
 Properties/C08.vos Properties/C08.vok Properties/C08.required_vos: Properties/C08.v Proxy/Proxy.vos Proofs/ProxyProofs.vos
